@@ -8,6 +8,7 @@ import (
 	"runtime"
 	"strconv"
 	"strings"
+	"sync"
 	"time"
 
 	"github.com/FollowTheProcess/spok/hash"
@@ -73,8 +74,55 @@ func race08Worker(args []string) {
 		}
 		runtime.Gosched()
 	}
+	// several parses in flight in one process (a library user, a test suite, a language server):
+	// every input with an error at lexer level, parsed by four goroutines at once, must give what
+	// it gives alone - anything two parses share (a package-level buffer) shows up as a different
+	// answer here, and as a report of the race detector
+	obs := func(x string) string {
+		tree, err := parser.New(x).Parse()
+		if err != nil {
+			return "error: " + err.Error()
+		}
+		return tree.String()
+	}
+	var conc []string
+	for _, x := range ins {
+		if len(x) < 200 && strings.HasPrefix(obs(x), "error: ") {
+			conc = append(conc, x)
+		}
+	}
+	for _, x := range ins[len(ins)-144:] {
+		if len(x) >= 200 {
+			conc = append(conc, x)
+		}
+	}
+	alone := make([]string, len(conc))
+	for i, x := range conc {
+		alone[i] = obs(x)
+	}
+	var mu sync.Mutex
+	differ := ""
+	var wg sync.WaitGroup
+	for g := 0; g < 4; g++ {
+		wg.Add(1)
+		go func(g int) {
+			defer wg.Done()
+			for k := range conc {
+				i := (k + g*len(conc)/4) % len(conc)
+				if got := obs(conc[i]); got != alone[i] {
+					mu.Lock()
+					if differ == "" {
+						differ = fmt.Sprintf("input %q parsed alone gives %q, parsed while three other parses are in flight it gives %q", conc[i], alone[i], got)
+					}
+					mu.Unlock()
+				}
+			}
+		}(g)
+	}
+	wg.Wait()
+	n += 4 * len(conc)
 	time.Sleep(50 * time.Millisecond)
-	fmt.Printf("{\"calls\": %d}", n)
+	fmt.Printf("{\"calls\": %d, \"concurrent\": %d, \"differ\": %s}", n, 4*len(conc), strconv.Quote(differ))
 }
 
 func racePass08(tier string) int {
@@ -89,7 +137,8 @@ func racePass08(tier string) int {
 		out.Procs = append(out.Procs, procs)
 		se := string(o.Stderr)
 		var r struct {
-			Calls int64 `json:"calls"`
+			Calls  int64  `json:"calls"`
+			Differ string `json:"differ"`
 		}
 		switch {
 		case strings.Contains(se, "DATA RACE"):
@@ -104,6 +153,10 @@ func racePass08(tier string) int {
 		default:
 			if json.Unmarshal(o.Stdout, &r) == nil {
 				out.Runs += r.Calls
+				if r.Differ != "" {
+					out.Viol = append(out.Viol, ev.Violation{Engine: "racepass", Key: "concurrent-parses GOMAXPROCS=" + strconv.Itoa(procs), Class: "result-depends-on-other-parses-in-flight",
+						What: fmt.Sprintf("GOMAXPROCS=%d: %s", procs, r.Differ), Case: map[string]any{"gomaxprocs": procs}})
+				}
 			}
 		}
 	}
@@ -160,6 +213,22 @@ func raceWorker(args []string) {
 		for _, l := range raceShapes(root) {
 			hash.New().Hash(l)
 			n++
+		}
+	}
+	// the same list in the hands of four callers at once (a task list shared by concurrent runs):
+	// Hash only reads its argument, so the detector has nothing to say unless it writes to it
+	for r := 0; r < reps; r++ {
+		for _, l := range raceShapes(root) {
+			var wg sync.WaitGroup
+			for g := 0; g < 4; g++ {
+				wg.Add(1)
+				go func() {
+					defer wg.Done()
+					hash.New().Hash(l)
+				}()
+			}
+			wg.Wait()
+			n += 4
 		}
 	}
 	// goroutine accounting: everything Hash started must be gone
